@@ -44,6 +44,57 @@ def build(ctx):
     return os.path.join(d, "drv")
 
 
+CAP_CORPUS = ["ownership", "classes", "strings", "vectors", "templates", "pointers-cxx", "struct-cxx", "arrayclass", "cxxlibrary", "namespace", "memdoc"]
+
+
+def capsule_table(ctx):
+    """release codes of the generated C++ sources (the capsule library built above + regression inputs) -> GenCapsule.v -> theorem"""
+    import corpus
+    import capflow
+    rows = []
+    c, st = capflow.extract(os.path.join(ctx.bdir, "cap"))
+    rows.append(("cap", c, st))
+    base = os.path.join(ctx.bdir, "capcorpus")
+    for (name, y, cmd) in corpus.test_descs():
+        if name not in CAP_CORPUS:
+            continue
+        od = os.path.join(base, name)
+        rc, out = corpus.run_shroud(y, od, cmd)
+        if rc != 0:
+            ctx.broken.append(("correspondence", "shroud-run-" + name, out[-800:]))
+            continue
+        c, st = capflow.extract(od)
+        rows.append((name, c, st))
+    gdir = os.path.join(ctx.bdir, "gen_capsule")
+    os.makedirs(gdir, exist_ok=True)
+    nsites = capflow.emit_coq(rows, os.path.join(gdir, "GenCapsule.v"))
+    for (label, c, st) in rows:
+        for x in st:
+            ctx.count(1, ("release-site", label, x[0], x[1], x[2]))
+            ctx.hist("release-site:" + ("library-owned" if x[2] == 0 else c.get(x[2], ("", "missing"))[1]))
+    rc, out = vlib.sh(["coqc", "-R", gdir, "ShroudGen", "-R", vlib.COQ, "Shroud", "GenCapsule.v"], cwd=gdir)
+    if rc != 0:
+        ctx.broken.append(("proof", "gen-capsule-compile", out[-1500:]))
+        return
+    shutil.copy(os.path.join(vlib.VERIF, "dyn", "C06_capsule.v"), os.path.join(gdir, "C06_capsule.v"))
+    ok, out = ctx.prove(os.path.join(gdir, "C06_capsule.v"), extra_R=[(gdir, "ShroudGen")])
+    ctx.extra["release_sites_in_table"] = nsites
+    if not ok:
+        # which site is not admitted?  (the failing input of the table obligation)
+        POD = {"char", "short", "int", "long", "float", "double", "size_t", "bool"}
+        for (label, c, st) in rows:
+            for (fl, fn, n, typ, how) in st:
+                if n == 0:
+                    continue
+                ct, act = c.get(n, ("", "missing"))
+                bad = act == "missing" or (act != "other" and (ct != typ or (how == "new" and act != "delete") or
+                                                               (typ.startswith(("std::string", "std::vector")) and act != "delete") or (typ in POD and act != "free")))
+                if bad:
+                    ctx.violation("failing-input", {"what": "a generated wrapper stores a release code whose case does not release the pointer's own type with the matching deallocator",
+                                                    "input": {"library": label, "file": fl, "wrapper": fn, "release_code": n, "pointer_type": typ, "obtained_by": how,
+                                                              "case_casts_to": ct, "case_action": act}})
+
+
 def gen_seq(rng, allow_bad):
     """(model ops, driver lines). handles are numbered in creation order on both sides; 5 library objects pre-exist"""
     mops = ["L"] * 5
@@ -349,6 +400,7 @@ def run(ctx):
     exe = build(ctx)
     if exe is None:
         return
+    capsule_table(ctx)
     quick = ctx.tier == "quick"
     rng = ctx.rng
     n = 1500 if quick else 30000
